@@ -300,7 +300,32 @@ def _check_pickle(ctx, repo, ci):
     if len(unp) != 1:
         ctx.bad("R-REPR.c", f"{ci.fq}.__setstate__", ss, ss.node, "__setstate__ must unpack the state tuple into the fields")
         return
-    in_fields = [e.attr if is_self_attr(e) else None for e in unp[0].targets[0].elts]
+    elts = unp[0].targets[0].elts
+    if all(is_self_attr(e) for e in elts):
+        in_fields = [e.attr for e in elts]
+    else:
+        # unpacked into locals, then stored field by field
+        locs = [e.id if isinstance(e, ast.Name) else None for e in elts]
+        in_fields = [None] * len(locs)
+        FALSY = {"{}", "[]", "0", "''", "None", "False", "dict()", "list()", "0.0", "()"}
+        for n in walk_no_nested(ss.node):
+            if isinstance(n, ast.Assign) and len(n.targets) == 1 and is_self_attr(n.targets[0]):
+                v = n.value
+                src = None
+                if isinstance(v, ast.Name) and v.id in locs:
+                    src = v.id
+                elif isinstance(v, ast.BoolOp) and isinstance(v.op, ast.Or) and isinstance(v.values[0], ast.Name) and v.values[0].id in locs:
+                    src = v.values[0].id
+                    dflt = norm(v.values[-1])
+                    ctx.check(dflt in FALSY, "R-REPR.c", f"{ci.fq}.__setstate__: {n.targets[0].attr} restored as pickled", ss, n,
+                              f"`{norm(v)}` replaces a legitimate falsy value (0) by {dflt}: the restored object differs from the pickled one")
+                elif isinstance(v, ast.IfExp) and any(isinstance(x, ast.Name) and x.id in locs for x in ast.walk(v)):
+                    src = next(x.id for x in ast.walk(v) if isinstance(x, ast.Name) and x.id in locs)
+                    okv = norm(v.test) in (f"{src} is not None", f"{src} is None")
+                    ctx.check(okv, "R-REPR.c", f"{ci.fq}.__setstate__: {n.targets[0].attr} restored as pickled", ss, n,
+                              f"`{norm(v)}` may replace a legitimate value of the pickled state")
+                if src is not None:
+                    in_fields[locs.index(src)] = n.targets[0].attr
     ctx.check(out_fields == in_fields and None not in out_fields, "R-REPR.c", f"{ci.fq}: same fields, same order", ss, unp[0],
               f"__getstate__ yields {out_fields} but __setstate__ restores {in_fields}")
     init_fields = []
@@ -520,6 +545,28 @@ def _check_dispatch(ctx, repo):
                        ("._from_repr(", "delegation to _from_repr"), ("'__type__'", "message_type decoding"),
                        ("'_fields'", "namedtuple decoding"), ("== 'tuple'", "tuple decoding")):
         ctx.check(frag in ftxt, "R-REPR.dispatch", f"from_repr: {what}", fr, fr.node, f"from_repr lost its {what}")
+    # plain tuples: encoded by position, decoded by *integer* position (JSON turns the keys into strings)
+    tb = [n for n in ast.walk(fr.node) if isinstance(n, ast.If) and "== 'tuple'" in norm(n.test)]
+    okt = False
+    if tb:
+        srt = [c for s_ in tb[0].body for c in ast.walk(s_) if isinstance(c, ast.Call) and call_name(c) == "sorted"]
+        for c in srt:
+            comp = c.args[0] if c.args else None
+            key = {k.arg: k.value for k in c.keywords}.get("key")
+            if isinstance(comp, (ast.ListComp, ast.GeneratorExp)) and isinstance(comp.elt, ast.Tuple) and comp.elt.elts:
+                idx = norm(comp.generators[0].target.elts[0]) if isinstance(comp.generators[0].target, ast.Tuple) else None
+                first = norm(comp.elt.elts[0])
+                if first == f"int({idx})" and key is None:
+                    okt = True
+                if key is not None and "int(" in norm(key):
+                    okt = True
+                if first == f"int({idx})" and key is not None and "[0]" in norm(key):
+                    okt = True
+    ctx.check(okt, "R-REPR.dispatch", "from_repr: tuple elements ordered by integer index", fr, tb[0] if tb else fr.node,
+              "after JSON the positional keys are strings: they must be converted with int() before sorting ('10' < '2' lexicographically)")
+    enc = [n for n in ast.walk(sr.node) if isinstance(n, ast.DictComp) and isinstance(n.generators[0].iter, ast.Call) and call_name(n.generators[0].iter) == "enumerate"]
+    ctx.check(len(enc) == 1 and norm(enc[0].key) == norm(enc[0].generators[0].target.elts[0]), "R-REPR.dispatch", "simple_repr: tuple elements keyed by position", sr,
+              enc[0] if enc else sr.node, "a plain tuple must be encoded as {position: element}")
     # container branches must encode / decode element by element
     from ..facts import FuncFacts, facts_at
 
@@ -593,6 +640,11 @@ VARIANTS = [
     ("http_header_roles", _CM, "                    \"sender-comp\": msg.src_comp,\n                    \"dest-comp\": msg.dest_comp,\n", "                    \"sender-comp\": msg.dest_comp,\n                    \"dest-comp\": msg.src_comp,\n", "break", "R-WIRE.http"),
     ("http_type_not_int", _CM, "src_comp, dest_comp, from_repr(content), int(type)", "src_comp, dest_comp, from_repr(content), type", "break", "R-WIRE.http"),
     ("http_body_raw", _CM, "        msg_repr = simple_repr(msg.msg)\n", "        msg_repr = simple_repr(msg)\n", "break", "R-WIRE.http"),
+    ("tuple_sorted_on_str_key", _SRF, "                values = sorted( [(int(i), v) for i, v in r.items()\n                                  if i not in ['__qualname__', '__module__']] )", "                values = sorted([(i, v) for i, v in r.items()\n                                  if i not in ['__qualname__', '__module__']], key=lambda iv: iv[0])", "break", "R-REPR.dispatch"),
+    ("setstate_or_default", _O, "        (\n            self._name,\n            self._hosting_costs,\n            self._default_hosting_cost,\n            self._attr,\n            self._default_route,\n            self._routes,\n        ) = state",
+     "        name, hosting_costs, default_hosting_cost, attr, default_route, routes = state\n        self._name = name\n        self._hosting_costs = hosting_costs or {}\n        self._default_hosting_cost = default_hosting_cost or 0\n        self._attr = attr or {}\n        self._default_route = default_route or 1\n        self._routes = routes or {}", "break", "R-REPR.c"),
+    ("n_setstate_locals", _O, "        (\n            self._name,\n            self._hosting_costs,\n            self._default_hosting_cost,\n            self._attr,\n            self._default_route,\n            self._routes,\n        ) = state",
+     "        name, hosting_costs, default_hosting_cost, attr, default_route, routes = state\n        self._name = name\n        self._hosting_costs = hosting_costs or {}\n        self._default_hosting_cost = default_hosting_cost\n        self._attr = attr\n        self._default_route = default_route\n        self._routes = routes", "neutral"),
     ("from_repr_no_list", _SRF, "    elif isinstance(r, list):\n        return [from_repr(v) for v in r]\n", "", "break", "R-REPR.dispatch"),
     ("simple_repr_no_none", _SRF, "    elif o is None:\n        return None\n", "", "break", "R-REPR.dispatch"),
     ("simple_repr_dict_shallow", _SRF, "        return {k: simple_repr(o[k]) for k in o}", "        return dict(o)", "break", "R-REPR.dispatch"),
